@@ -87,6 +87,8 @@ class FactChecker:
         self.writer = {}        # NamedId -> AssignDef that last bound it
         self.env = {}           # NamedId -> current value
         self.sizevars = {}      # size variable -> observed length
+        self.entry_sizes = []   # (argument, value at entry, size bound): judged when the run returns
+        self.pending_size = []  # size witnesses of the current run: reported if it returns
         self.args_repr = None
 
     def on_enter(self, ast, vals):
@@ -97,18 +99,36 @@ class FactChecker:
                 d = self.du.site_to_def.get((arg.name, arg))
                 if d is not None:
                     self.writer[arg.name] = d
+                    # what is said of an argument holds whether or not the run ever reads it -- on a run that returns (a run
+                    # stopped by an unconditional assert or a strict zip owes the fact nothing): judged by on_returned()
+                    if self.asz is not None and d in self.asz.by_def:
+                        self.entry_sizes.append((arg, v, self.asz.by_def[d]))
                 self.env[arg.name] = v
         for name in ast.free_vars:
             d = self.du.site_to_def.get((name, ast))
             if d is not None:
                 self.writer[name] = d
 
+    def on_returned(self):
+        """the run returned: lists are never resized, so the arguments still have their entry lengths"""
+        for arg, v, bound in self.entry_sizes:
+            self.check_size(arg, v, bound)
+        self.entry_sizes = []
+        # a length the analysis takes from an unconditional assert / strict zip is reported for every read of the list, also
+        # the reads before that statement: a run it stops owes those nothing, so what was seen of sizes counts once the run returned
+        for w in self.pending_size:
+            if w['_key'] not in self.seen_keys:
+                self.seen_keys.add(w.pop('_key'))
+                self.found.append(w)
+        self.pending_size = []
+
     # -- reporting -----------------------------------------------------------------------
     def fail(self, analysis, node, problem, **more):
         key = (analysis, id(node), problem[:40])
         if key in self.seen_keys:
             return
-        self.seen_keys.add(key)
+        if analysis != 'size':
+            self.seen_keys.add(key)
         try:
             where = node.format()
         except Exception:
@@ -116,6 +136,10 @@ class FactChecker:
         w = {'property': PROP, 'analysis': analysis, 'problem': problem, 'at': where[:300], 'args': self.args_repr, 'source': self.source,
              'mechanism': {'analysis': analysis, 'node': type(node).__name__}}
         w.update(more)
+        if analysis == 'size':
+            w['_key'] = key
+            self.pending_size.append(w)
+            return
         self.found.append(w)
 
     # -- expression facts ---------------------------------------------------------------
@@ -337,6 +361,7 @@ PROFILES = [
     dict(w_if=5, w_if1=3, w_while=2, w_for=4, w_const=3, w_copy=2, max_depth=4),
     dict(w_if=8, return_in_arm_prob=0.45, w_const=3, w_assign=6, w_early_return=1.5, max_depth=4, max_stmts=7),
     dict(w_with=5, computed_ctx_prob=0.3, w_const=4, w_freevar=2),
+    dict(w_for=6, w_if=5, w_if1=4, w_assert=3, len_assert_prob=0.7, zip_two_lists_prob=0.7, w_listdef=3, const_list_prob=0.5, max_depth=4, w_tuplelist=1),
 ]
 ARGS = [('R', 'R', 'L'), ('R', 'L'), ('R', 'R'), ('R', 'B', 'L'), ('L', 'L', 'R'), ('R', 'LL', 'L'), ('R', 'T', 'L'), ('R', 'LL')]
 
@@ -358,6 +383,13 @@ DIRECTED = [
     'v = 1\n    for e in xs1:\n        if e > 0:\n            v = e\n        else:\n            v = v * e\n    w = v\n    k = 0\n    while k < 2 and v == v:\n        v = v / x2\n        with fp.INTEGER:\n            k = k + 1\n    return (v, w)',
     # a nested if/else with one returning arm inside an outer if/else
     'y = x1\n    if x1 > 0:\n        if x2 > 0:\n            return 7\n        else:\n            y = 2\n    else:\n        y = 1\n    z = y\n    return z + y',
+    # a strict zip / a length assertion inside an arm that is not taken says nothing of the argument -- also when another
+    # conditional construct (comprehension, if-expression, inner if, loop) was entered and left earlier in the same arm
+    'acc = 0\n    if x1 > 0:\n        sq = [e * e for e in xs1]\n        for a, k in zip(xs1, [1, 2]):\n            acc = acc + a * k + sq[0]\n    return acc',
+    'acc = 0\n    ys = [x1, x2, x1]\n    if x1 > 0:\n        w = 2 if len(xs1) > 1 else 1\n        for a, b in zip(xs1, ys):\n            acc = acc + w * a * b\n    return acc',
+    'r = 0\n    ys = [x1, x2]\n    if x1 > 0:\n        if len(xs1) > 0:\n            r = xs1[0]\n        assert len(xs1) == len(ys)\n    return r',
+    'r = 0\n    for i in range(2):\n        if x2 > i:\n            for j in range(1):\n                r = r + j\n            assert len(xs1) == 1\n    return (r, xs1)',
+    'r = 0\n    k = 0\n    while k < 2 and x1 > 0:\n        for e in xs1:\n            r = r + e\n        for a, b in zip(xs1, [1, 2, 3]):\n            r = r + a * b\n        with fp.INTEGER:\n            k = k + 1\n    return r',
     # constants under nested contexts, redefinition after a copy
     'a = 0.1 + 0.2\n    with C3:\n        b = 0.1 + 0.2\n        with MF:\n            c = b / 3\n    d = a\n    a = x1\n    if x1 > 0:\n        d = 7\n    return (a, b, c, d)',
 ]
@@ -402,6 +434,8 @@ def shard(i: int, n: int, tier: str, seed: int) -> Result:
                         args = [a, b, xs]
                         chk.args_repr = repr(args)
                         out = genrun.guarded(lambda: run_traced(mod.f, genrun.copy.deepcopy(args), None, chk), timeout=8.0)
+                        if out[0] == 'ok':
+                            chk.on_returned()
                         res.count('run_returned' if out[0] == 'ok' else 'run_raised')
                     if chk.found:
                         break
@@ -447,6 +481,8 @@ def shard(i: int, n: int, tier: str, seed: int) -> Result:
                 ctx = rng.choice([None, None, fp.FP32, fp.MPFloatContext(5)])
                 chk.args_repr = repr(args) + f' ctx={ctx!r}'[:80]
                 out = genrun.guarded(lambda: run_traced(mod.f, genrun.copy.deepcopy(args), ctx, chk), timeout=8.0)
+                if out[0] == 'ok':
+                    chk.on_returned()
                 if out[0] == 'timeout':
                     res.count('run_timeout')
                 elif out[0] == 'exc':
